@@ -717,6 +717,16 @@ func transformFuncs(kind int) (interface{}, interface{}) {
 		// deliberately no copying: the transform passes the slice through
 		return func(x TrRaw) ([]byte, error) { return x.B, nil },
 			func(b []byte) (TrRaw, error) { return TrRaw{b}, nil }
+	case 10:
+		// a second string form for TrKey (used only through the OTHER atlas of the history suite)
+		return func(x TrKey) (string, error) { return x.B + "|" + x.A, nil },
+			func(s string) (TrKey, error) {
+				b, a, ok := splitOnce(s, '|')
+				if !ok {
+					return TrKey{}, fmt.Errorf("bad TrKey")
+				}
+				return TrKey{a, b}, nil
+			}
 	case 9:
 		// the serial form is an untyped value
 		return func(x TrAny) (interface{}, error) { return x.V, nil },
